@@ -49,6 +49,33 @@ static inline size_t cm_next(const uint8_t *d, size_t n, size_t o)
     (((st) == 4 || (st) == 8) && (ver) == (fver) && (mt) == (fmt) && (fseq) == (uint16_t)((seq) + 1) && \
      (SEG_BITS(b) == 8 || SEG_BITS(b) == 12) && (size_t)BE16(b, 14) <= (n) - 16)
 
+/* ---- payload kinds: T = (message type << 8) | payload type byte */
+#define IS_TYPED(T)   ((T) == 0x0101 || (T) == 0x0102 || (T) == 0x0103 || (T) == 0x0107 || (T) == 0x0108 || (T) == 0x0301 || (T) == 0x0302)
+/* a payload may be returned as typed kind T only if ...            (inner lengths fit, no bus-error flags that must invalidate) */
+#define KIND_MUST_GEN(T, d, n) (((T) == 0x0101 || (T) == 0x0102) ? (VALID_CAN(d, n) && !ERR_CAN_MUST(d)) : (T) == 0x0103 ? VALID_LIN(d, n) : (T) == 0x0107 ? VALID_ANALOG(d, n) : \
+                            (T) == 0x0108 ? (VALID_ETH(d, n) && !ERR_ETH_MUST(d)) : (T) == 0x0301 ? VALID_CM(d, n) : (T) == 0x0302 ? VALID_IF(d, n) : 1)
+/* a payload must be returned as typed kind T if ...                (consistent and free of every error flag the library may reject) */
+#define KIND_MAY_GEN(T, d, n)  (((T) == 0x0101 || (T) == 0x0102) ? (VALID_CAN(d, n) && !ERR_CAN_MAY(d)) : (T) == 0x0103 ? VALID_LIN(d, n) : (T) == 0x0107 ? VALID_ANALOG(d, n) : \
+                            (T) == 0x0108 ? (VALID_ETH(d, n) && !ERR_ETH_MAY(d)) : (T) == 0x0301 ? VALID_CM(d, n) : (T) == 0x0302 ? (VALID_IF(d, n) && IF_STATUS_OK(d)) : 1)
+/* proof by cases over the payload kind: a harness compiled with -DKIND_FIX=<T> (or -DKIND_UNTYPED) proves the contract for that kind only;
+ * the seven typed kinds plus 'untyped' cover every value */
+#if defined(KIND_FIX)
+/* under the case assumption T == KIND_FIX the kind predicates are instantiated at the constant (folds to the one predicate of that kind) */
+#define KIND_MUST(T, d, n) KIND_MUST_GEN((uint32_t)(KIND_FIX), d, n)
+#define KIND_MAY(T, d, n)  KIND_MAY_GEN((uint32_t)(KIND_FIX), d, n)
+#define KIND_SEL(T) ((T) == (KIND_FIX))
+#elif defined(KIND_UNTYPED)
+#define KIND_MUST(T, d, n) 1
+#define KIND_MAY(T, d, n)  1
+#define KIND_SEL(T) (!IS_TYPED(T))
+#else
+#define KIND_MUST(T, d, n) KIND_MUST_GEN(T, d, n)
+#define KIND_MAY(T, d, n)  KIND_MAY_GEN(T, d, n)
+#define KIND_SEL(T) 1
+#endif
+#define PTYPE(mt, b)        ((((uint32_t)(uint8_t)(mt)) << 8) | (uint32_t)B(b, 13))      /* payload kind of the message at b in a frame of message type mt */
+#define FRAME_IS_CMP(d, n)  ((d) != 0 && (n) >= 8 && B(d, 0) != 0)
+
 /* a pointer/length view lies inside the payload buffer [d, d+n) */
 #define VIEW_IN(p, len, d, n) ((len) == 0 || (__CPROVER_same_object((p), (d)) && __CPROVER_POINTER_OFFSET(p) >= 0 && (size_t)__CPROVER_POINTER_OFFSET(p) + (len) <= (n)))
 
